@@ -112,7 +112,7 @@ var collectionScripts = []string{
 }
 
 type bias struct {
-	fail, perm, emit, bad, loop, native, nilbs, guard, typed, exotic, hostile float64
+	fail, perm, emit, bad, loop, native, nilbs, guard, typed, exotic, hostile, inplace float64
 }
 
 func p(x float64) bool { return rng.Float64() < x }
@@ -175,6 +175,29 @@ func genOps(b bias, guard bool) []mach.Op {
 func genNode(b bias, allowMsgAct bool) *mach.ANode {
 	n := &mach.ANode{Native: p(b.native)}
 	n.Partial = n.Native && p(0.3)
+	n.InPlace = n.Native && p(b.inplace)
+	if n.InPlace {
+		// (C18 speaks of code that deletes, overwrites or replaces bindings; a native action that reaches INTO a value it was
+		// handed and changes it there is not among them - the engine hands native actions the values themselves)
+		defer func() {
+			strip := func(ops []mach.Op) []mach.Op {
+				out := ops[:0:0]
+				for _, o := range ops {
+					if o.Name != "mutnested" {
+						out = append(out, o)
+					}
+				}
+				if ops == nil {
+					return nil
+				}
+				return out
+			}
+			n.Act = strip(n.Act)
+			for i := range n.Branches {
+				n.Branches[i].Guard = strip(n.Branches[i].Guard)
+			}
+		}()
+	}
 	if p(0.5) {
 		n.Act = genOps(b, false)
 	}
@@ -915,7 +938,7 @@ var biases = map[string]bias{
 	"total":  {fail: 0.6, perm: 0.4, emit: 0, bad: 0.1, loop: 0.03, native: 0.4, nilbs: 0.15, guard: 0.5, hostile: 0.06},
 	"exotic": {fail: 0.3, perm: 0.2, emit: 0, bad: 0.0, loop: 0.0, native: 0.2, nilbs: 0.05, guard: 0.5, exotic: 0.5},
 	"emit":   {fail: 0.6, perm: 0.05, emit: 0.2, bad: 0.02, loop: 0.02, native: 0.0, nilbs: 0, guard: 0.4},
-	"perm":   {fail: 0.4, perm: 0.8, emit: 0, bad: 0.0, loop: 0.0, native: 0.5, nilbs: 0, guard: 0.5},
+	"perm":   {fail: 0.4, perm: 0.8, emit: 0, bad: 0.0, loop: 0.0, native: 0.5, nilbs: 0, guard: 0.5, inplace: 0.4},
 	"walk":   {fail: 0.2, perm: 0.1, emit: 0.1, bad: 0.02, loop: 0.0, native: 0.3, nilbs: 0.02, guard: 0.3},
 }
 
